@@ -51,6 +51,7 @@ type c11Scen struct {
 	Mode    string  `json:"mode"`
 	Clients int     `json:"clients"`
 	Ops     []c11Op `json:"ops"`
+	Redis   bool    `json:"redis,omitempty"` // persistence on the redis backend (subscription store wrapper, queues)
 }
 
 var c11Filters = []string{"t", "t/+", "#", "+/x", "t/#", "$x/#"}
@@ -58,6 +59,7 @@ var c11Topics = []string{"t", "t/x", "u/x", "$x/a"}
 
 func genC11(t *rapid.T) c11Scen {
 	s := c11Scen{Mode: rapid.SampledFrom([]string{"overlap", "onlyonce"}).Draw(t, "mode"), Clients: rapid.IntRange(2, 4).Draw(t, "nclients")}
+	s.Redis = rapid.IntRange(0, 4).Draw(t, "backend") == 0
 	// leaving by expiry costs 1.4 s of real time per op: allowed in a third of the scenarios, at most twice
 	expireLeft := 0
 	if rapid.IntRange(0, 2).Draw(t, "allow_expire") == 0 {
@@ -130,6 +132,11 @@ func waitClientGone(b *fixture.Broker, id string) bool {
 func runC11(s c11Scen, c *ev.Case) *ev.Violation {
 	cfg := fixture.BaseConfig()
 	cfg.MQTT.DeliveryMode = s.Mode
+	cfg, cleanupBackend, bv := withBackend(cfg, s.Redis, c)
+	if bv != nil {
+		return bv
+	}
+	defer cleanupBackend()
 	b, err := fixture.Start(fixture.Opts{Config: cfg})
 	if err != nil {
 		return harnessErr("start broker: %v", err)
